@@ -51,6 +51,7 @@ pub fn run_property(ctx: &Ctx) -> Option<Report> {
             mtu::run(ctx, &mut r);
             // what reaches the wire on the real transport: every emitted datagram is exactly one message
             r.push(srv::udp_smoke(ctx));
+            r.rule.push_str("; sub-check udp-loopback-smoke: one real-transport run (every emitted datagram is exactly one message, also after a failed send; every message kind sent to a socket of the transport comes out of recv)");
             r.rule.push_str("; sub-check huge-digest: cases = (1..40 members whose node ids are padded so that the sender's own digest leaves 100..1,200 bytes, own key-values owed to the peer); non-trivial = every case (the reply is always truncated)");
             r
         }
@@ -111,6 +112,7 @@ pub fn run_property(ctx: &Ctx) -> Option<Report> {
             );
             r.assume("scope: watermarks and versions 0..7, <= 3 sender keys, <= 1 receiver key in the enumerated part; versions up to 1e6 and 4 keys in the random part");
             pairs::run_c14(ctx, &mut r);
+            r.rule.push_str("; sub-check member-scheduled-at-receiver: the same random pairs with the member scheduled for deletion at the receiver (digest omits it, copy still held): the from-0 delta is applied as the reference apply predicts; non-trivial = the receiver's copy advanced");
             r
         }
         "C04" => {
